@@ -30,7 +30,7 @@
    run: the position reported is where the first packet of that run ends, and
    the handle is landed as after a page seek.  NOT proved: byte seeks that
    change link or land on a last page, the continued-packet fallback, seeks that finish inside the last page (end-of-
-   stream trim), half-rate: tied per run by the bit-exact oracle.  See DESIGN.md
+   stream trim): tied per run by the bit-exact oracle; half rate: Properties_C20.v.  See DESIGN.md
    section 13. *)
 From VV Require Import Blocking VFile VFile_lemmas VFileDemo Sync_lemmas Seek_lemmas.
 From Coq Require Import ZArith List Lia.
